@@ -40,8 +40,9 @@ class C09(ServerPlugin):
     rule = ("case = (server plain or with_graceful_shutdown, protocol h1/h2/auto, acceptor duplex / duplex+TLS / TCP / Unix, "
             "event list interleaving per-connection faults (cancelled connect, immediate disconnect, garbage bytes = failed "
             "TLS handshake under TLS, silent client = stalled handshake, truncated head / body, disconnect in handler / mid "
-            "response, handler error, unix peer with a non-UTF-8 path) with well-behaved connections, then a fresh probe "
-            "client); per stretch between quiescent points the multiset of observable events is compared with the model and "
+            "response, handler error, unix peer with a non-UTF-8 path, clients asking for a zero-capacity stream) with "
+            "well-behaved connections, then a fresh probe client; server buffer cap and client buffer sizes vary as hidden "
+            "variation; a panic of the serving future is logged as its end); per stretch between quiescent points the multiset of observable events is compared with the model and "
             "mon_C09 judges the implementation's log; non-trivial = at least one request, fault or cancelled connect; "
             "distinct = distinct case lines")
     trusted = [
@@ -62,8 +63,11 @@ class C09(ServerPlugin):
         queues = []
         scripts = fault_scripts(proto, tr)
         who = 0
+        sized = tr in ("duplex", "dtls")
         for _ in range(nfault):
             ck, evs = rng.choice(scripts)
+            if sized and ck == "C0" and "Fg" not in evs and rng.random() < 0.5:
+                ck = "C0" + rng.choice([":0", ":0", ":1"])       # a client asking for a (nearly) useless stream
             queues.append([(ck, who)] + [(t, who) for t in evs])
             who += 1
         for _ in range(ngood):
@@ -74,6 +78,8 @@ class C09(ServerPlugin):
                 evs = ["R", "R"] + ["T"] * 6
             if rng.random() < 0.25:
                 evs = evs + rng.choice([["R"], ["R", "T"], ["R", "T", "T"]])     # left unfinished: must not matter
+            if sized and rng.random() < 0.4:
+                ck = ck + rng.choice([":65536", ":4096"] + ([":1024"] if tr == "duplex" else []))
             queues.append([(ck, who)] + [(t, who) for t in evs])
             who += 1
         seq = self.merge(rng, queues)
@@ -103,7 +109,10 @@ class C09(ServerPlugin):
                 evs.append(t)
             else:
                 evs.append(f"{t}{ids[w]}")
-        return {"mode": mode, "proto": proto, "tr": tr, "evs": evs}
+        case = {"mode": mode, "proto": proto, "tr": tr, "evs": evs}
+        if sized and rng.random() < 0.5:
+            case["cap"] = rng.choice([65536, 4096] + ([1024] if tr == "duplex" else []))
+        return case
 
     def generate(self, tier, rng):
         cases = []
@@ -130,9 +139,22 @@ class C09(ServerPlugin):
                             continue
                         e = [ck, "S"] + [f"{t}0" for t in evs] + [pk, "S"] + [f"{t}1" for t in FULL] + ["S"]
                         cases.append({"mode": mode, "proto": proto, "tr": tr, "evs": e})
+        # what the model abstracts from: the server-side buffer cap and the buffer size a client asks for
+        # (a zero-capacity stream is that client's own problem); fault and probe under every combination
+        for mode in ("p", "g"):
+            for proto, pk in (("h1", "C1"), ("h2", "C2"), ("auto", "C1")):
+                for cap in (None, 65536, 4096):
+                    for tr in ("duplex", "dtls"):
+                        for odd in ("C0:0", "C0:1"):
+                            for want in ("", ":4096"):
+                                cases.append({"mode": mode, "proto": proto, "tr": tr, "cap": cap,
+                                              "evs": [odd, "S", pk + want, "S"] + [f"{t}1" for t in FULL] + ["S"]})
+                            cases.append({"mode": mode, "proto": proto, "tr": tr, "cap": cap,
+                                          "evs": [pk, "S", "R0", "T0", odd, "S", "Fd1", "T0", "T0", pk, "S"] + [f"{t}2" for t in FULL] + ["S"]})
         # causes: the future may (only) end on signal / listener loss / make-service failure
         for mode in ("p", "g"):
             for proto, pk in (("h1", "C1"), ("h2", "C2"), ("auto", "C1")):
+                cases.append({"mode": mode, "proto": proto, "tr": "duplex", "evs": [pk, "S", "K0", pk, pk, "S", "R0", "S"]})
                 for cause in ("L", "M", "G"):
                     cases.append({"mode": mode, "proto": proto, "tr": "duplex",
                                   "evs": [pk, "S", "R0", "T0", cause, pk, "S", "T0", "T0", pk, "S", "R2", "S"]})
